@@ -10,6 +10,9 @@ from .gen import Gen, draw_profile
 from .oracles import ORACLES, all_nested
 
 DEFAULT_SEED = 20261001
+# runs are executed in chunks of CHUNK consecutive indices, every chunk in its own freshly forked
+# process: the first run of a chunk meets the library in the state a new process has
+CHUNK = 200
 
 
 def seed_for(verif_seed, prop, i):
@@ -112,6 +115,7 @@ def _run_one(prop, verif_seed, i, keep_ops=False, max_steps=None, banned=(), tie
     rng = random.Random(seed)
     faults = faults_enabled(i)
     prof = draw_profile(rng, prop, faults, tier)
+    prof['pristine'] = (i % CHUNK == 0)       # nothing of the library has run in this process yet
     w = World([ORACLES[prop]()], prof)
     w.reset_globals()
     g = Gen(rng, prof, w, banned)
